@@ -1,12 +1,12 @@
 SPECIFICATION Spec
 CONSTANTS
  BugDupChecks = FALSE  BugIterEmpty = FALSE  BugAppendTotal = FALSE
- NSlots = 1  MaxStreams = 1  MaxRecs = 3
+ NSlots = 1  MaxStreams = 12  MaxRecs = 4000
  USizes <- OneU  VSizes <- TinyV  Pads <- NoValues  FlagSet <- NoValues
  CommonU <- NoValues  CommonV <- NoValues
- FamStreams <- NoValues  FamBase = 3  FamGroups <- NoValues
+ FamStreams <- FamStreamsT  FamBase = 3  FamGroups <- FamGroupsT
  Volume = FALSE
- MinSteps = 99  MaxSteps = 8
+ MinSteps = 1  MaxSteps = 2
 VIEW View
-ACTION_CONSTRAINT EmitT
+CONSTRAINT Emit
 CHECK_DEADLOCK FALSE
